@@ -6,3 +6,5 @@ import Rp2.Props.C16
 #print axioms Rp2.C16.default_method_is_accepted
 #print axioms Rp2.C16.taxable_types_have_a_sheet
 #print axioms Rp2.C16.files_are_reports
+#print axioms Rp2.C16.full_report_total
+#print axioms Rp2.C16.tax_sheet_fits
